@@ -23,7 +23,8 @@ POST = {
     # reads the context of the pipeline it runs in: a variable and the state
     4: {"type": "simple_template", "template": "{query} |k1={pipeline.vars[k1]} st={pipeline.state}"},
 }
-FIN = {1: {"type": "concat", "separator": " , ", "prefix": "A(", "suffix": ")"}}
+FIN = {1: {"type": "concat", "separator": " , ", "prefix": "A(", "suffix": ")"},
+       2: {"type": "nested", "finalizers": [{"type": "template", "template": "k1={{ pipeline.vars.k1 }} :: {{ queries | join(' ; ') }}"}]}}
 PROBES = [
     {"title": "lin", "logsource": {"category": "c", "product": "linux"}, "detection": {"sel": {"fieldA": "v1", "fieldB": "v2"}, "condition": ["sel", "not sel"]}},
     {"title": "win", "logsource": {"category": "c", "product": "windows"}, "detection": {"sel": {"fieldA": "v1"}, "condition": "sel"}},
